@@ -92,6 +92,7 @@ type SigSpec struct {
 	Place     int    // 0 right after Issuer; 1 first child; 2 last child
 	DSPrefix  string // "ds" (default when empty and !DSDefault), any other prefix
 	DSDefault bool   // use a default-namespace declaration for the signature
+	NoNSDecl  bool   // the Signature element carries no xmlns declaration (an ancestor declares the ds prefix)
 	RefURI    *string
 	// BreakDigest / BreakSig corrupt the produced signature (tamper classes).
 	BreakDigest, BreakSig bool
@@ -174,7 +175,13 @@ func BuildSignature(el *etree.Element, spec *SigSpec) (*etree.Element, error) {
 		return e
 	}
 	sig := mk(nil, "Signature")
-	if pfx == "" {
+	inScope := map[string]string{}
+	if ectx, err := pctx.SubContext(el); err == nil {
+		inScope = ectx.Prefixes()
+	}
+	if spec.NoNSDecl && pfx == "ds" && inScope["ds"] == NSDS {
+		// the prefix is in scope from an ancestor
+	} else if pfx == "" {
 		sig.CreateAttr("xmlns", NSDS)
 	} else {
 		sig.CreateAttr("xmlns:"+pfx, NSDS)
